@@ -32,6 +32,22 @@ ROT2 = ["CRz", "CRx", "CU1"]
 SELF_ADJOINT = {"H", "X", "Z", "CX", "CZ"}
 
 
+def custom_matrix(n, idx):
+    """ Fixed non-symmetric unitaries for user-defined gates QuantumGate(name,
+    n, array): products of standard matrices, written out here. """
+    r = 2 ** -0.5
+    H = np.array([[r, r], [r, -r]], dtype=complex)
+    S = np.diag([1, 1j]).astype(complex)
+    T = np.diag([1, np.exp(0.25j * np.pi)]).astype(complex)
+    X = np.array([[0, 1], [1, 0]], dtype=complex)
+    CX = np.eye(4, dtype=complex)[[0, 1, 3, 2]]
+    if n == 1:
+        return [H @ T, S @ H @ T, T @ H @ S @ H][idx % 3]
+    return [np.kron(H, S) @ CX @ np.kron(T, H),
+            CX @ np.kron(S @ H, T) @ np.kron(np.eye(2), H @ T),
+            np.kron(T @ H, X @ S) @ CX @ np.kron(H, H @ S)][idx % 3]
+
+
 def num(x):
     """ Number or sympy expression from its spec form. """
     if isinstance(x, str):
@@ -62,6 +78,8 @@ def gate_sig(b):
         sig = [Q], [Q]
     elif g in TWO_QUBIT or g in ROT2 or g == "C":
         sig = [Q, Q], [Q, Q]
+    elif g == "Q":
+        sig = [Q] * a[0], [Q] * a[0]
     elif g == "Ket":
         sig = [], [Q] * len(a)
     elif g == "Bra":
@@ -154,6 +172,10 @@ def gate(b):
         return getattr(gates, g)(num(a[0]))
     if g == "C":
         return gates.Controlled(gate(a[0]))
+    if g == "Q":
+        box = gates.QuantumGate("Q%d%d" % tuple(a), a[0],
+                                array=custom_matrix(*a).flatten().tolist())
+        return box.dagger() if dag else box
     if g == "Ket":
         return gates.Ket(*a)
     if g == "Bra":
@@ -440,8 +462,9 @@ def circuit_layer(scan, max_width, gateset="all", symbolic=False):
             return b, off
         re, im = draw(st.integers(-2, 2)), draw(st.integers(-2, 2))
         if gateset != "pure" and draw(st.booleans()):
-            # a mixed scalar is a (non-negative real) weight
-            return {"k": "g", "g": "scalar", "a": [abs(re) + abs(im) / 2, 0],
+            # a mixed scalar is a real weight (negative ones occur in
+            # parameter-shift gradients)
+            return {"k": "g", "g": "scalar", "a": [re + im / 2, 0],
                     "mixed": True}, draw(st.integers(0, len(scan)))
         return {"k": "g", "g": "scalar", "a": [re, im], "mixed": False},\
             draw(st.integers(0, len(scan)))
